@@ -34,8 +34,10 @@
      Q1b  a method whose attempt failed is never attempted again; a RetryableAuthMethod with
           maxTries n > 0 calls the wrapped method at most n times per attempt.
      Q2   a signed publickey request for key k, algorithm a is written only as the next packet
-          after a query for (k, a) that the server answered with PK_OK for k and an algorithm of
-          k's key format; and the signature verifies over the session id (sigok).
+          after a query for (k, a) that the server answered with PK_OK for k's blob and an
+          algorithm of k's key format (the name of the other family -- the plain algorithm for a
+          certificate, the certificate algorithm for a plain key -- is not an acceptance); and
+          the signature verifies over the session id (sigok).
      Q3   the algorithm of every publickey request is the documented choice DocChoice for that
           signer and the server-sig-algs received before SERVICE_ACCEPT; a signer for which the
           documented outcome is an error is not offered at all; a key is offered a second time
